@@ -28,7 +28,7 @@ def rettype(ctx):
 
 
 def plain(v):
-    if isinstance(v, list):
+    if isinstance(v, (list, tuple)):
         return [plain(a) for a in v]
     if v is None or isinstance(v, (int, bool)):
         return v if v is None else int(v)
@@ -254,11 +254,12 @@ def compare(expected, got, pid, m):
     bad = []
     if expected['out'] != got['out']:
         for i, (e, g) in enumerate(zip(expected['out'], got['out'])):
-            if e != g:
+            if not compare_masked(e, g):
                 bad.append(f'output[{i}] expected {e} got {g}')
                 break
         else:
-            bad.append(f"output length {len(got['out'])} != {len(expected['out'])}")
+            if len(got['out']) != len(expected['out']):
+                bad.append(f"output length {len(got['out'])} != {len(expected['out'])}")
     bad.extend(compare_log(expected['log'], got['log'], pid, m))
     return bad
 
@@ -650,3 +651,161 @@ def gen(rng, cfg, tier='quick', effects=False, heavy=False, l=None, size=None, a
         size = rng.randint(1, 6 if tier == 'quick' else 12)
     g = Gen(rng, cfg, l, size, effects=effects, heavy=heavy, allow=allow)
     return g.build()
+
+
+# ------------------------------------------------------------------ sorting / selection (C29)
+
+def _ref_sorted_rows(t, a, p):
+    rows = sorted(zip(a[0], a[1]), key=lambda r: r[0], reverse=bool(p.get('reverse')))
+    return [[r[0] for r in rows], [r[1] for r in rows]]
+
+
+def _real_sorted_rows(c, a, p):
+    rows = [[k, v] for k, v in zip(a[0], a[1])]
+    rows = c.rt.sorted(rows, key=lambda r: r[0], reverse=bool(p.get('reverse')))
+    return [[r[0] for r in rows], [r[1] for r in rows]]
+
+
+def _real_seclist_sort(c, a, p):
+    from mpyc.seclists import seclist
+    s = seclist(a[0], c.T)
+    s.sort(reverse=bool(p.get('reverse')))
+    return [list(s)]
+
+
+def _real_argmin_rows(c, a, p):
+    rows = [[k, v] for k, v in zip(a[0], a[1])]
+    f = c.rt.argmin if not p.get('max') else c.rt.argmax
+    i, r = f(rows, key=lambda r: r[0])
+    return [i, r[0], r[1]]
+
+
+def _ref_argmin_rows(t, a, p):
+    ks = a[0]
+    k = max(ks) if p.get('max') else min(ks)
+    i = ks.index(k)
+    return [i, ks[i], a[1][i]]
+
+
+_op('sorted', lambda c, a, p: [c.rt.sorted(a[0], reverse=bool(p.get('reverse')))],
+    lambda t, a, p: [sorted(a[0], reverse=bool(p.get('reverse')))])
+_op('sorted_key_neg', lambda c, a, p: [c.rt.sorted(a[0], key=lambda x: -x)],
+    lambda t, a, p: [sorted(a[0], key=lambda x: -x)])
+_op('sorted_rows', _real_sorted_rows, _ref_sorted_rows)
+_op('seclist_sort', _real_seclist_sort, lambda t, a, p: [sorted(a[0], reverse=bool(p.get('reverse')))])
+_op('argmin_rows', _real_argmin_rows, _ref_argmin_rows)
+_op('min_key', lambda c, a, p: [c.rt.min(a[0], key=lambda x: -x)], lambda t, a, p: [max(a[0])])
+_op('max_args', lambda c, a, p: [c.rt.max(*a[0])], lambda t, a, p: [max(a[0])])
+_op('min_args', lambda c, a, p: [c.rt.min(*a[0])], lambda t, a, p: [min(a[0])])
+
+
+# ------------------------------------------------------------------ bit-level building blocks (C30)
+
+def _bits(v, n):
+    return [(v >> i) & 1 for i in range(n)]
+
+
+def _ref_find(t, a, p):
+    x = a[0]
+    tgt = p['a'] if 'a' in p else a[1]
+    n = len(x)
+    ix = x.index(tgt) if tgt in x else None
+    mode = p.get('mode', 'default')
+    if mode == 'default':
+        return [n if ix is None else ix]
+    if mode == 'e-1':
+        return [-1 if ix is None else ix]
+    if mode == 'elast':
+        return [n - 1 if ix is None else ix]
+    if mode == 'raw':
+        return [int(ix is None), n if ix is None else ix]
+    if mode == 'pow2':
+        i = n if ix is None else ix
+        return [1 << i]
+    if mode == 'pow2cs':
+        i = n if ix is None else ix
+        return [1 << i]
+    if mode == 'pair':
+        i = n if ix is None else ix
+        return [i, 1 << i]
+    raise ValueError(mode)
+
+
+def _real_find(c, a, p):
+    x = a[0]
+    tgt = p['a'] if 'a' in p else a[1]
+    mode = p.get('mode', 'default')
+    bits = p.get('bits', True)
+    rt = c.rt
+    if mode == 'default':
+        return [rt.find(x, tgt, bits=bits)]
+    if mode == 'e-1':
+        return [rt.find(x, tgt, bits=bits, e=-1)]
+    if mode == 'elast':
+        return [rt.find(x, tgt, bits=bits, e='len(x)-1')]
+    if mode == 'raw':
+        nf, ix = rt.find(x, tgt, bits=bits, e=None)
+        return [nf, ix]
+    if mode == 'pow2':
+        return [rt.find(x, tgt, bits=bits, f=lambda i: 2 ** i)]
+    if mode == 'pow2cs':
+        return [rt.find(x, tgt, bits=bits, cs_f=lambda b, i: (b + 1) << i)]
+    if mode == 'pair':
+        r = rt.find(x, tgt, bits=bits, cs_f=lambda b, i: (i + b, (b + 1) << i))
+        return list(r)
+    raise ValueError(mode)
+
+
+_op('find', _real_find, _ref_find)
+_op('add_bits', lambda c, a, p: [c.rt.add_bits(a[0], a[1])],
+    lambda t, a, p: [_bits(sum(b << i for i, b in enumerate(a[0])) + sum(b << i for i, b in enumerate(a[1])), len(a[0]))])
+_op('add_bits_pub', lambda c, a, p: [c.rt.add_bits(a[0], list(p['y']))],
+    lambda t, a, p: [_bits(sum(b << i for i, b in enumerate(a[0])) + sum(b << i for i, b in enumerate(p['y'])), len(a[0]))])
+_op('to_bits', lambda c, a, p: [c.rt.to_bits(a[0], p.get('l'))],
+    lambda t, a, p: [_bits(a[0] % (1 << t['l']), p.get('l') if p.get('l') is not None else t['l'])])
+_op('from_bits', lambda c, a, p: [c.rt.from_bits(a[0])], lambda t, a, p: [sum(b << i for i, b in enumerate(a[0]))])
+_op('unit_vector', lambda c, a, p: [c.rt.unit_vector(a[0], p['n'])],
+    lambda t, a, p: [[int(i == a[0] % p['n']) for i in range(p['n'])]])
+
+
+def _ref_tz(t, a, p):
+    l = p.get('l') or t['l']
+    v = a[0] % (1 << t['l'])
+    bits = _bits(v, l)
+    # only correct up to and including the least significant 1: mask the rest as None
+    out = []
+    seen = False
+    for b in bits:
+        out.append(None if seen else b)
+        if b:
+            seen = True
+    return [out]
+
+
+_op('trailing_zeros', lambda c, a, p: [c.rt.trailing_zeros(a[0], l=p.get('l'))], _ref_tz)
+
+
+def _tz(v):
+    return (v & -v).bit_length() - 1
+
+
+_op('gcp2', lambda c, a, p: [c.rt.gcp2(a[0], a[1], l=p.get('l'))],
+    lambda t, a, p: [1 << min(_tz(x) for x in (a[0], a[1]) if x != 0)])
+
+
+def compare_masked(e, g):
+    """Equality where None in the expectation means 'unspecified'."""
+    if isinstance(e, list):
+        return isinstance(g, list) and len(e) == len(g) and all(compare_masked(x, y) for x, y in zip(e, g))
+    return e is None or e == g
+
+
+def gen_fixed(cfg, l, inputs, stmts, outputs, sender=0):
+    """Program with explicit inputs: inputs = [(var, list-or-int)], given by one sender."""
+    st = []
+    for var, val in inputs:
+        if isinstance(val, list):
+            st.append(['input_list', [var], [], {'senders': [sender], 'values': [val], 'dummy': 0}])
+        else:
+            st.append(['input', [var], [], {'sender': sender, 'value': val, 'dummy': 0}])
+    return {'family': NAME, 'type': {'l': l}, 'stmts': st + stmts, 'outputs': outputs}
